@@ -24,7 +24,7 @@ long nondet_long(void);
 extern int g_lib_fail;
 
 /* ghosts (defined in stubs/ghost.c, documented in contracts/jwk_parse_c.h) */
-extern const void *g_jwk_tracked_bin; extern const char *g_push_name_of_tracked; extern int g_push_count;
+extern const void *g_jwk_tracked_bin; extern const char *g_push_name_of_tracked; extern unsigned g_push_count;
 extern const char *g_pkey_type_name; extern int g_fromdata_selection; extern size_t g_ossl_bits; extern int g_pem_private;
 extern const char *g_ec_point_curve; extern const void *g_ec_point_x, *g_ec_point_y;
 
